@@ -402,7 +402,7 @@ def enum_space(total_ops_list, alphabet, shard: int, nshards: int, *, kinds_cycl
                 continue
             kinds: Any = "generic"
             if kinds_cycle:
-                kinds = ("generic", "coro", c % 5)[c % 3] if c % 7 == 0 else "generic"
+                kinds = ("generic", "coro", (c // 7) % 7)[c % 3] if c % 7 == 0 else "generic"
             sym = ssb.sym_from_classes(cl, salt=c % 97, kinds=kinds, multiline=multiline)
             yield f"{tag}{n}", ssb.layout(sym, SCHEMES[c % 4], start=(c % 3) * 5)
 
@@ -413,7 +413,7 @@ def aimed_space(shard: int, nshards: int, multiline: bool = False) -> Iterator[t
     c = 0
     for name, cl in ssb.aimed_shapes():
         for salt in (0, 3, 5, 9, 14):
-            for kinds in ("generic", "coro", 1):
+            for kinds in ("generic", "coro", 1, 4):
                 c += 1
                 if c % nshards != shard:
                     continue
